@@ -151,14 +151,20 @@ theorem gen_addsub_with_relaxed (sub : Bool) (x y : Q) :
       = X.addSub sub x y := by
   cases sub <;> (unfold RatOps.impl_addsub_with_relaxed X.addSub; gsimp)
 
+theorem gcdK_error {a b : Nat} {e : PanicKind} (h : gcdK a b = .error e) : e = .gcdZeroZero := by
+  unfold gcdK at h
+  split at h
+  · cases h; rfl
+  · cases h
+
+/-- (order-insensitive proof: the two independent gcds may be computed in either order in the source) -/
 theorem gen_mul_with_rbig (x y : Q) :
     RatOps.impl_mul_with_rbig (· * ·) x.num x.den y.num y.den x.num x.den y.num y.den = R.mul x y := by
   unfold RatOps.impl_mul_with_rbig R.mul
   rw [G.gcd_eq, G.gcd_eq]
   simp only [Int.natAbs_natCast]
-  cases gcdK x.num.natAbs y.den with
-  | error e => rfl
-  | ok g1 => cases gcdK x.den y.num.natAbs <;> gsimp
+  cases h1 : gcdK x.num.natAbs y.den <;> cases h2 : gcdK x.den y.num.natAbs <;> gsimp
+  all_goals (first | rfl | (rw [gcdK_error h1, gcdK_error h2]) | (rw [gcdK_error h1]) | (rw [gcdK_error h2]))
 
 theorem gen_mul_with_relaxed (x y : Q) :
     RatOps.impl_mul_with_relaxed (· * ·) x.num x.den y.num y.den x.num x.den y.num y.den = X.mul x y := by
@@ -171,9 +177,8 @@ theorem gen_div_with_rbig (x y : Q) :
   simp only [Int.natAbs_natCast]
   by_cases hi : y.num = 0
   · gsimp [hi]
-  · cases gcdK x.num.natAbs y.num.natAbs with
-    | error e => gsimp [hi]
-    | ok g1 => cases gcdK x.den y.den <;> gsimp [hi]
+  · cases h1 : gcdK x.num.natAbs y.num.natAbs <;> cases h2 : gcdK x.den y.den <;> gsimp [hi]
+    all_goals (first | rfl | (rw [gcdK_error h1, gcdK_error h2]) | (rw [gcdK_error h1]) | (rw [gcdK_error h2]))
 
 theorem gen_div_with_relaxed (x y : Q) :
     RatOps.impl_div_with_relaxed x.num x.den y.num y.den x.num x.den y.num y.den = X.div x y := by
